@@ -455,6 +455,12 @@ def run_tie(prop, spec, tier, seed):
             res.failures.append(Failure("infra", "harness (double) does not compile", replay={"compiler": out3[-3000:]}))
             return res
 
+    # the lifetime-tracked element type once more, with a move constructor that is not noexcept
+    bin_tm, out4 = lib.build_harness("rb_tmove", [HARNESS], extra_flags=["-DELEM_TMOVE"], deps=["harness/tracked.h", "harness/iter_script.h"])
+    if bin_tm is None:
+        res.failures.append(Failure("infra", "harness (throwing-move element) does not compile", replay={"compiler": out4[-3000:]}))
+        return res
+
     cases = lib.load_corpus("ringbuffer")
     ncorpus = len(cases)
     if tier == "quick":
@@ -478,6 +484,7 @@ def run_tie(prop, spec, tier, seed):
     for c, raw in zip(cases, model_raw):
         model.append(raw[1::2])
         layouts.append(raw[0::2])
+    impl_tm = seqtie.run_stream(bin_tm, cases, "rb reset")
     impl_long = seqtie.run_stream(bin_long, cases, "rb reset") if bin_long else None
     impl_double = seqtie.run_stream(bin_double, cases, "rb reset") if bin_double else None
 
@@ -519,8 +526,8 @@ def run_tie(prop, spec, tier, seed):
                 res.failures.append(Failure("drift", "Lean model disagrees with the bounded-deque oracle at op %d: expected %r, model %r" % (d[0], d[1], d[2]),
                                             replay={"correspondence": "ringbuffer model vs oracle", "ops": c, "expected": e, "model": o}))
                 continue
-            b = binary if which == "impl" else bin_long if which == "long" else bin_double
-            pj = prop if which == "impl" else "C04"
+            b = binary if which == "impl" else bin_tm if which == "tmove" else bin_long if which == "long" else bin_double
+            pj = prop if which in ("impl", "tmove") else "C04"
 
             def fails(cand):
                 if not valid(cand):
@@ -534,12 +541,13 @@ def run_tie(prop, spec, tier, seed):
             dd = seqtie.first_diff([project(pj, x) for x in ee], [project(pj, x) for x in oo])
             res.failures.append(Failure("violation",
                                         "RingBuffer<%s> differs from the bounded deque at op %d (%s): expected %r, got %r" %
-                                        ("Tracked" if which == "impl" else which, dd[0], small[dd[0]] if dd[0] < len(small) else "?", dd[1], dd[2]),
+                                        ("Tracked" if which == "impl" else "TrackedM (move not noexcept)" if which == "tmove" else which, dd[0], small[dd[0]] if dd[0] < len(small) else "?", dd[1], dd[2]),
                                         signature=";".join(small),
                                         replay={"component": "ringbuffer", "element": which, "ops": small, "expected": ee, "got": oo}))
         return nfail
 
     res.extra["impl_mismatches"] = check("impl", impl, "impl")
+    res.extra["impl_tmove_mismatches"] = check("impl", impl_tm, "tmove")
     if impl_long is not None:
         res.extra["impl_long_mismatches"] = check("impl", impl_long, "long")
     if impl_double is not None:
@@ -556,8 +564,8 @@ def replay(prop, spec, path):
         print(json.dumps(data, indent=1))
         return 0
     which = data["replay"].get("element", "impl")
-    binary, out = lib.build_harness({"impl": "rb_tracked", "long": "rb_long", "double": "rb_double"}[which], [HARNESS],
-                                    extra_flags={"impl": [], "long": ["-DELEM_LONG"], "double": ["-DELEM_DOUBLE"]}[which], deps=["harness/tracked.h", "harness/iter_script.h"])
+    binary, out = lib.build_harness({"impl": "rb_tracked", "tmove": "rb_tmove", "long": "rb_long", "double": "rb_double"}[which], [HARNESS],
+                                    extra_flags={"impl": [], "tmove": ["-DELEM_TMOVE"], "long": ["-DELEM_LONG"], "double": ["-DELEM_DOUBLE"]}[which], deps=["harness/tracked.h", "harness/iter_script.h"])
     e = expected(ops)
     o = seqtie.run_stream(binary, [ops], "rb reset")[0]
     m = seqtie.run_stream(None, [ops], "rb reset", is_driver=True)[0]
